@@ -296,3 +296,22 @@ CHECKS["C11"] = dict(
     assumptions=["engine/fancy_ptr.hpp is a conforming random-access pointer-like type with pointer_traits rebind", "ordering operators between operands of DIFFERENT pointer types are not promised (==/!= are, and are checked)",
                  "harness-side address comparison uses std::addressof(*p) / a harness-only accessor of fancy::ptr"],
 )
+
+
+def sharded(harness, tier, n=16, cfg="san", libs=(), cxx=None, extra_args=(), defs=()):
+    return [Job(harness, cfg=cfg, defs=list(defs), libs=list(libs), cxx=cxx, args=["--tier=" + tier, "--shard=%d" % i, "--nshards=%d" % n] + list(extra_args)) for i in range(n)]
+
+
+CHECKS["C14"] = dict(
+    title="LAPACK adaptor", level="exploration", engine="E4",
+    claim=("Complete configuration grid for potrf, geqrf and gesvd (two call forms): element types x sizes 0/1..4 x six matrix layouts (owning, row-major contiguous, row-major padded block, column-major contiguous, "
+           "column-major padded block, inner stride 2) x vector layouts x triangle selection x ALL small integer factors / matrices of the stated families (potrf: every unit-or-2-diagonal factor with 0/1 entries, plus "
+           "every position of a non-positive pivot; geqrf/gesvd: all matrices over {-1,0,1} up to 6 entries). Each configuration is executed on the real adaptor inside guarded stores; outcomes: correct (exact factor / "
+           "reconstruction within 64 eps), rejected (exception or assertion located in boost/multi), anything else is a violation; rejecting a layout the property names as supported is a violation too. "
+           "syev cannot be exercised: its header does not compile on this tree (decided by a compile probe, reported as a known finding)."),
+    jobs=lambda tier: sharded("lapackmc", tier, libs=["-lopenblas", "-llapack"]),
+    extra=lambda tier: __import__("probes").c14_probes(tier),
+    rule=("flat enumeration of (routine, element type, layouts, sizes, triangle, matrix); see notes/C14.md for the exact grid and counts; distinct_nontrivial = configurations with all sizes >= 1; "
+          "violation key = form | element type | operand layouts | size classes | variant | symptom."),
+    assumptions=["the installed LAPACK/OpenBLAS are the environment of the adaptor", "oracles are written in the harness (known Cholesky factor, Householder reconstruction, U*diag(s)*VT)", "g++ 12 -O0 ASan+UBSan, assertions enabled; OPENBLAS_NUM_THREADS=1"],
+)
